@@ -120,6 +120,10 @@ func applyOpOverrides(of *gql.OpFeatures, on, off featSet) {
 	set("explicit-id", &of.ExplicitID)
 	set("id-alias", &of.IDAlias)
 	set("id-with-fragments", &of.IDWithFragments)
+	set("abstract-nested", &of.AbstractNested)
+	set("abstract-cond-frag", &of.AbstractCondFrag)
+	set("abstract-frag-meta", &of.AbstractFragMeta)
+	set("frag-twice", &of.FragTwice)
 }
 
 func opFeatures(s *sched.Sim, cfg Config) gql.OpFeatures {
